@@ -318,6 +318,8 @@ func (gen *generator) irGlobal(new *ir.Global, old *ast.GlobalDecl) error {
 			name := new.GlobalName
 			if n, ok := globalField.Name(); ok {
 				name = comdatName(n)
+			} else if new.IsUnnamed() {
+				return errors.Errorf("comdat of unnamed global %q cannot be unnamed", new.Ident())
 			}
 			def, ok := gen.new.comdatDefs[name]
 			if !ok {
@@ -626,6 +628,8 @@ func (gen *generator) irFuncHeader(new *ir.Func, old ast.FuncHeader) error {
 			name := new.GlobalName
 			if n, ok := funcHdrField.Name(); ok {
 				name = comdatName(n)
+			} else if new.IsUnnamed() {
+				return errors.Errorf("comdat of unnamed function %q cannot be unnamed", new.Ident())
 			}
 			def, ok := gen.new.comdatDefs[name]
 			if !ok {
